@@ -394,12 +394,9 @@ impl D {
                 }
                 r.remove(*x);
             }
-            D::Truncate(n) => {
-                if *n > len {
-                    return Err(format!("Truncate length {n} > len {len}"));
-                }
-                r.truncate(*n);
-            }
+            // truncating to more than the current length is a harmless no-op for `VectorDiff::apply`
+            // (C18), not an inapplicable diff
+            D::Truncate(n) => r.truncate(*n),
             D::Reset(v) => {
                 r.clear();
                 r.extend_from_slice(v);
